@@ -548,6 +548,14 @@ func genPfx(r *Rand, tier string, emit func(string)) {
 			os = append(os, strconv.Itoa(base+r.Intn(end-base)))
 		}
 		os = append(os, strconv.Itoa(base), strconv.Itoa(end-1))
+		for v := base + 1015; v <= base+1035 && v < end; v++ { // the end of the encoder's lookup table
+			os = append(os, strconv.Itoa(v))
+		}
+		for j, acc := 0, base; j < n; j++ { // the first and last value of every range
+			b, _ := strconv.Atoi(bs[j])
+			os = append(os, strconv.Itoa(acc), strconv.Itoa(acc+1<<uint(b)-1))
+			acc += 1 << uint(b)
+		}
 		emit(fmt.Sprintf("rng base=%d bits=%s ofs=%s", base, strings.Join(bs, ","), strings.Join(os, ",")))
 	}
 }
